@@ -104,8 +104,19 @@ def keys_for(n, mode):
 # ---------------------------------------------------------------- inputs
 def inp(pixels, bins="fix3", mode="upper", dtype="int32", score=False):
     """description of one input cooler; pixels = [[bin1, bin2, count]] (score column = count/2 if score)"""
+    num = float if str(dtype).startswith("float") else int
     return dict(bins=bins, mode=mode, dtype=dtype, score=bool(score),
-                pixels=sorted([int(p[0]), int(p[1]), int(p[2])] for p in pixels))
+                pixels=sorted([int(p[0]), int(p[1]), num(p[2])] for p in pixels))
+
+
+def exact_total(inputs):
+    """sum of all input counts; every float used in this runner is a small dyadic rational, so python's sum is exact
+    and independent of the order of summation"""
+    return sum(p[2] for d in inputs for p in d["pixels"])
+
+
+class InputMismatch(Exception):
+    pass
 
 
 _CACHE = {}
@@ -131,7 +142,8 @@ def build_input(d, workdir):
     # the written input must hold exactly what the description says (guards the runner itself)
     with h5py.File(p, "r") as f:
         got = [list(t) for t in zip(f["pixels/bin1_id"][:].tolist(), f["pixels/bin2_id"][:].tolist(), f["pixels/count"][:].tolist())]
-        assert got == px and f["pixels/count"].dtype == dt, (got, px)
+        if not (got == px and f["pixels/count"].dtype == dt):
+            raise InputMismatch(f"input cooler holds {got} dtype {f['pixels/count'].dtype}; described {px} {dt}")
     _CACHE[key] = p
     return p
 
@@ -225,22 +237,26 @@ def exc_signature(contract, e, kind):
     return f"{contract}:{type(e).__name__}@{fn}:{kind}"
 
 
-def do_merge(out, paths, mergebuf, columns=None, agg=None, dtypes=None, via="api"):
-    """run the real merge; returns None or raises"""
+def do_merge(out, paths, mergebuf, columns=None, agg=None, dtypes=None, via="api", fields=None):
+    """run the real merge; returns None or raises.  API: dtypes=None is not passed, dtypes={} IS passed as an empty dict.
+    CLI: `fields` (raw --field strings) overrides the fields derived from columns/agg/dtypes"""
     if via == "api":
         kw = {}
         if columns is not None:
             kw["columns"] = list(columns)
         if agg:
             kw["agg"] = dict(agg)
-        if dtypes:
+        if dtypes is not None:
             kw["dtypes"] = {k: np.dtype(v) for k, v in dtypes.items()}
         cooler.merge_coolers(out, list(paths), mergebuf, **kw)
         return
     from click.testing import CliRunner
     from cooler.cli import cli
     args = ["merge", out] + list(paths) + ["-c", str(mergebuf)]
-    for col in (columns or (["count"] if (dtypes or agg) else [])):
+    if fields is not None:
+        for fld in fields:
+            args += ["--field", fld]
+    for col in ([] if fields is not None else (columns or (["count"] if (dtypes or agg) else []))):
         props = []
         if dtypes and col in dtypes:
             props.append(f"dtype={dtypes[col]}")
@@ -286,10 +302,9 @@ def run_merge(spec, workdir):
                  f"{cname}==elementwise-aggregate:{kind}"))
     # total / index / bins: recomputed from the inputs' raw files and the expected table
     n = len(BINS[inputs[0]["bins"]])
-    in_tot = 0
-    for p in paths:
-        with h5py.File(p, "r") as f:
-            in_tot += int(f.attrs["sum"])
+    # the input totals are taken as the exact sums of the input counts (what a correct input records), so that this clause
+    # judges the merge even if the create path that wrote the inputs mis-records their totals
+    in_tot = exact_total(inputs)
     exp_off = [sum(1 for k in keys if k[0] < i) for i in range(n + 1)]
     a = raw["attrs"]
     if "count" in columns and agg.get("count", "sum") == "sum":
@@ -306,7 +321,51 @@ def run_merge(spec, workdir):
     res.append(R("merged-total-and-index-consistent", info_ok, spec,
                  dict(sum=a.get("sum"), nnz=a.get("nnz"), offset=raw["offset"], lens=raw["lens"], mode=a.get("storage-mode")),
                  dict(sum=exp_total, nnz=len(keys), offset=exp_off), nt, f"merged-total-and-index-consistent:{kind}"))
-    return res, dict(keys=raw["keys"], cols=raw["cols"])
+    return res, dict(keys=raw["keys"], cols=raw["cols"], sum=a.get("sum"))
+
+
+def run_valuetype(spec, workdir):
+    """value columns wider than the int32 default (fractional float64 counts, int64 counts beyond 2**31) with every way of
+    NOT asking for a count dtype (dtypes=None, dtypes={}, a dtypes dict / --field list that names only another column):
+    the stored values and the recorded total are the exact aggregate, and the stored dtype can hold every value of the
+    inputs' common dtype (and is the requested one for a column whose dtype was requested)"""
+    res = []
+    inputs = spec["inputs"]
+    paths = [build_input(d, workdir) for d in inputs]
+    columns = spec["columns"] or ["count"]
+    agg = spec.get("agg") or {}
+    out = os.path.join(workdir, "out.cool")
+    if os.path.exists(out):
+        os.remove(out)
+    keys, cols = aggregate(inputs, columns, agg)
+    sig = f"output-value-type-holds-exact-aggregate:{spec['valuekind']}"
+    try:
+        do_merge(out, paths, spec["mergebuf"], spec["columns"], spec.get("agg"), spec["dtypes"], spec["via"], spec.get("fields"))
+    except Exception as e:
+        res.append(R("output-value-type-holds-exact-aggregate", False, spec, f"{type(e).__name__}: {e}\n{traceback.format_exc(limit=-4)}",
+                     "exact aggregate stored (every value fits the inputs' own dtype)", True, sig + ":raised"))
+        return res, None
+    raw = read_raw(out, columns)
+    requested = dict(spec["dtypes"] or {})
+    for fld in (spec.get("fields") or []):
+        for prop in fld.split(":", 1)[1].split(",") if ":" in fld else []:
+            if prop.startswith("dtype="):
+                requested[fld.split(":")[0]] = prop[6:]
+    dtype_ok = {}
+    for c in columns:
+        stored = np.dtype(raw["dtypes"][c])
+        if c in requested:
+            dtype_ok[c] = stored == np.dtype(requested[c])
+        else:
+            common = np.result_type(*[np.dtype(d["dtype"]) if c == "count" else np.dtype("float64") for d in inputs])
+            dtype_ok[c] = bool(np.can_cast(common, stored, "safe"))
+    tot = exact_total(inputs) if "count" in columns else raw["attrs"].get("sum")
+    ok = (raw["keys"] == keys and all(raw["cols"][c] == cols[c] for c in columns) and all(dtype_ok.values())
+          and raw["attrs"].get("sum") == tot)
+    res.append(R("output-value-type-holds-exact-aggregate", ok, spec,
+                 dict(keys=raw["keys"], cols=raw["cols"], dtypes=raw["dtypes"], sum=raw["attrs"].get("sum")),
+                 dict(keys=keys, cols=cols, sum=tot, dtype="holds the inputs' common dtype / is the requested one"), True, sig))
+    return res, None
 
 
 def run_assoc(spec, workdir):
@@ -399,7 +458,10 @@ def run_spec(spec, workdir):
     old = signal.signal(signal.SIGALRM, _alarm)
     signal.alarm(60)          # a non-terminating partition loop becomes a recorded failure instead of a hang
     try:
-        return {"merge": run_merge, "assoc": run_assoc, "incompatible": run_incompatible, "overflow": run_overflow}[spec["kind"]](spec, workdir)
+        return {"merge": run_merge, "assoc": run_assoc, "incompatible": run_incompatible, "overflow": run_overflow,
+                "valuetype": run_valuetype}[spec["kind"]](spec, workdir)
+    except InputMismatch as e:   # the library did not even write an INPUT cooler as described (create path, not the merge)
+        return [R("input-cooler-as-described", False, spec, str(e), "input written as described", True, "input-cooler-as-described")], None
     except RunTimeout:
         return [R("merge-completes", False, spec, "no result after 60 s", "termination", True, "merge-completes:timeout")], None
     except Exception as e:   # a bug in the runner itself or an unreadable output
@@ -513,6 +575,48 @@ def overflow_specs(thorough):
     return out
 
 
+# fractional float64 counts (multiples of 1/8: all sums exact) spread over all rows, so that every split of the merge
+# into epochs has non-integer partial sums
+FLOATS = {
+    "FA": [[0, 0, 0.5], [0, 1, 1.25], [1, 1, 2.75], [1, 2, 0.25], [2, 2, 3.5]],
+    "FB": [[0, 0, 0.25], [0, 2, 1.5], [1, 2, 0.75], [2, 2, 0.125]],
+    "FC": [[0, 1, 0.375], [1, 1, 1.125], [2, 2, 2.625]],
+}
+BIG = {
+    "IA": [[0, 0, 2 ** 31 + 5], [1, 2, 2 ** 40], [2, 2, 7]],
+    "IB": [[0, 0, 2 ** 33], [0, 1, 2 ** 31], [1, 2, 3]],
+}
+
+
+def valuetype_specs(thorough):
+    fa, fb, fc = (inp(FLOATS[k], dtype="float64", score=True) for k in ("FA", "FB", "FC"))
+    ia, ib = (inp(BIG[k], dtype="int64", score=True) for k in ("IA", "IB"))
+    small = inp(NAMED["D"], dtype="int32", score=True)
+    fams = [("float64-fractional-counts", [fa, fb]), ("int64-counts-beyond-int32", [ia, ib]),
+            ("mixed-int32-and-float64-counts", [small, fa]), ("mixed-int32-and-int64-counts", [small, ia])]
+    if thorough:
+        fams += [("float64-fractional-counts", [fa]), ("float64-fractional-counts", [fc, fb, fa]),
+                 ("int64-counts-beyond-int32", [ib]), ("mixed-int32-and-float64-counts", [fa, small]),
+                 ("mixed-int32-and-int64-counts", [ia, small, ib])]
+    # (via, columns, agg, dtypes, raw --field strings): every way of not requesting a count dtype
+    forms = [
+        ("api", None, None, None, None),                                          # dtypes=None
+        ("api", None, None, {}, None),                                            # dtypes={}
+        ("api", ["count"], {"count": "sum"}, {}, None),                           # what `--field count:agg=sum` passes
+        ("api", ["count", "score"], None, {"score": "float64"}, None),            # dtypes names only another requested column
+        ("api", None, None, {"score": "float64"}, None),                          # dtypes names only a column that is not merged
+        ("cli", None, None, None, None),                                          # no --field
+        ("cli", ["count"], None, None, ["count"]),
+        ("cli", ["count"], {"count": "sum"}, None, ["count:agg=sum"]),
+        ("cli", ["count", "score"], None, None, ["count", "score:dtype=float64"]),
+    ]
+    for kind, ins in fams:
+        for via, columns, agg, dtypes, fields in forms:
+            for mb in ((2, 10 ** 6) if not thorough else (1, 3, 4, 7, 10 ** 6)):
+                yield dict(kind="valuetype", valuekind=kind, inputs=ins, mergebuf=mb, columns=columns, agg=agg, dtypes=dtypes,
+                           via=via, fields=fields)
+
+
 def main():
     B = B7("C07", "bounded/C07.py")
     work = B.path("work")
@@ -595,6 +699,19 @@ def main():
                                        mergebuf=10, via="cli")))
     for s in overflow_specs(T):
         specs.append((None, None, s))
+    # --- 7b. value columns wider than the default, no count dtype requested (stored values, dtype, total)
+    for s in valuetype_specs(T):
+        specs.append((None, None, s))
+    # --- 7c. non-integer values: the recorded total is the exact sum of the input totals for EVERY split into epochs
+    for fam in (("FA",), ("FA", "FB"), ("FA", "FB", "FC"), ("FB", "FB")):
+        ins = [inp(FLOATS[k], dtype="float64") for k in fam]
+        for mb in (1, 3, 4, 7, 10 ** 6):
+            specs.append((("float-total",) + fam, "mergebuf", merge_spec(ins, mb)))
+        for mb in ((3, 10 ** 6) if not T else (1, 3, 4, 7, 10 ** 6)):
+            specs.append((("float-total",) + fam, "mergebuf", merge_spec(ins, mb, via="cli")))
+        if len(fam) == 3:
+            for perm in itertools.permutations(range(3)):
+                specs.append((("float-total",) + fam, "order", merge_spec([ins[i] for i in perm], 4)))
     # --- 8. seeded sampling beyond the named families (thorough)
     nsamp = 0
     if T:
@@ -620,7 +737,9 @@ def main():
                f"{len(order_fams)} three-cooler families + a mixed-dtype (int8/int16/int32) family; 6 column-set/aggregate choices (sum/max/min, "
                f"count+float column); nested merges (a+b)+c, a+(b+c), merge(a,b,c) for {len(triples)} triples x sum/max/min; 10 kinds of "
                f"incompatible inputs in both orders and as third input{' via API and CLI' if T else ''}; values at dtype.max-1/dtype.max for "
-               f"int32/int16/int64{'/uint16/int8/uint8' if T else ''} and requested output dtypes; `cooler merge` CLI"
+               f"int32/int16/int64{'/uint16/int8/uint8' if T else ''} and requested output dtypes; fractional float64 / int64>2^31 / mixed "
+               f"count dtypes x 9 ways of not requesting a count dtype (dtypes None, {{}}, other column; API and --field forms) x mergebuf "
+               f"{'{1,3,4,7,1e6}' if T else '{2,1e6}'}; float64 fractional totals x mergebuf {{1,3,4,7,1e6}} x orders; `cooler merge` CLI"
                + (f".  SAMPLED (seeded, {nsamp} families x 3 runs): random families of 1..4 coolers with <=3 random pixels, both tables, both "
                   f"modes, sum/max/min, mergebuf 1..8, shuffled order" if T else ""))
     B.rule = ("case = one merge (input pixel tables + dtypes + bin table + mode, mergebuf, columns, aggregates, API/CLI) or one nested-merge "
